@@ -30,7 +30,7 @@ if rc != 0:
     print(json.dumps(res)); sys.exit(0)
 shutil.copy(os.path.join(src, "demo.rs"), os.path.join(wt, "tests", "zz_demo.rs"))
 for extra in os.listdir(src):
-    if extra not in ("patch.diff", "demo.rs", "notes.md", "meta.json") and os.path.isfile(os.path.join(src, extra)) and not extra.endswith(".txt"):
+    if extra not in ("patch.diff", "demo.rs", "notes.md", "meta.json") and os.path.isfile(os.path.join(src, extra)) and not extra.endswith(".txt") and not extra.endswith(".rs"):
         shutil.copy(os.path.join(src, extra), os.path.join(wt, "tests", extra))
 d0, o0 = demo()
 res["demo_without"] = d0
